@@ -79,6 +79,15 @@ def compare(col, case, row, conf, got, swapped=False):
 def one_call(collocator, P, S, row, conf, rng=None):
     I, k, ws, we, _ = row
     emb = EMB[conf["embedding"]]
+    cm.set_tick(conf.get("tick_s", 60))
+    try:
+        return _one_call(collocator, P, S, row, conf, rng, emb)
+    finally:
+        cm.set_tick(60)
+
+
+def _one_call(collocator, P, S, row, conf, rng, emb):
+    I, k, ws, we, _ = row
     extraP = extraS = None
     if conf.get("inflated"):
         extraP = quarantine(1001, +1, conf["T"], rng)
@@ -103,13 +112,13 @@ def confs_for(n, tier):
     shapes = ["linear", "grid", "timedim"]
     out = []
     embs = list(EMB)
-    base = {"embedding": embs[n % 3], "shape": shapes[n % 3], "sp": n % 5, "bin_factor": 1 + n % 2,
+    base = {"embedding": embs[n % 3], "shape": shapes[n % 3], "sp": n % 8, "tick_s": [60, 1][(n // 3) % 2], "bin_factor": 1 + n % 2,
             "magnitude_factor": [1, 10][(n // 2) % 2], "leaf_size": [1, 40][(n // 3) % 2]}
     out.append(base)
     if tier != "quick":
         for e in embs:
             for sh in shapes:
-                out.append(dict(base, embedding=e, shape=sh, sp=(n + len(out)) % 5))
+                out.append(dict(base, embedding=e, shape=sh, sp=(n + len(out)) % 8, tick_s=[60, 1][len(out) % 2]))
     return out
 
 
